@@ -391,11 +391,11 @@ func (s *IndexedState) add(ctx *Context, id string, x Map) (string, error) {
 	if rule != nil {
 		// ToDo: Metric(ctx, "RuleUpdated", "location", s.Name, "ruleId", id)
 		Log(DEBUG, ctx, "IndexedState.add", "state", s.Name, "rule", rule, "ruleId", id)
-		if _, scheduled := rule["schedule"]; !scheduled {
+		if !hasSchedule(rule) {
 			if err = s.indexRule(ctx, id, rule); err != nil {
 				if previousRule != nil {
 					// The previous rule stays, so it stays indexed.
-					if _, scheduled := previousRule["schedule"]; !scheduled {
+					if !hasSchedule(previousRule) {
 						s.indexRule(ctx, id, previousRule)
 					}
 				}
@@ -416,12 +416,12 @@ func (s *IndexedState) add(ctx *Context, id string, x Map) (string, error) {
 			// to what it was: the refused rule leaves it, and
 			// the previous rule (which stays stored) returns.
 			if rule != nil {
-				if _, scheduled := rule["schedule"]; !scheduled {
+				if !hasSchedule(rule) {
 					s.unindexRule(ctx, id, rule)
 				}
 			}
 			if previousRule != nil {
-				if _, scheduled := previousRule["schedule"]; !scheduled {
+				if !hasSchedule(previousRule) {
 					s.indexRule(ctx, id, previousRule)
 				}
 			}
